@@ -375,15 +375,20 @@ fn random_query(rng: &mut Rng, syms: &[String]) -> Q {
         4 | 5 => Q::Inh(s(rng)),
         6 | 7 => Q::Fits(s(rng), s(rng)),
         8 => {
+            // records over few tag names, each tag a Marker or a plain value: two records with the same tag names but
+            // another marker-ness reflect differently (a conjunct needs all its parts as markers)
             let mut rec = Dict::new();
             for _ in 0..(1 + rng.below(4)) {
                 let k = s(rng);
+                let val = |rng: &mut Rng| if rng.chance(2, 3) { Value::Marker } else { Value::make_str("x") };
                 if k.contains('-') {
                     for p in k.split('-') {
-                        rec.insert(p.to_string(), Value::Marker);
+                        let v = val(rng);
+                        rec.insert(p.to_string(), v);
                     }
                 } else if !k.contains(':') {
-                    rec.insert(k, Value::Marker);
+                    let v = val(rng);
+                    rec.insert(k, v);
                 }
             }
             Q::Reflect(rec)
@@ -413,7 +418,18 @@ pub fn rec(out: &mut Out, seed: u64, rounds: usize) -> Result<(), String> {
         let use_deep = r % 5 == 2;
         let (grid, syms) = if use_real { (&real, &real_syms) } else if use_deep { (&deep, &deep_syms) } else { (&small, &small_syms) };
         let per = if use_real { 3 } else { 1 + rng.below(4) };
-        let queries: Vec<Vec<Q>> = (0..threads).map(|_| (0..per).map(|_| random_query(&mut rng, syms)).collect()).collect();
+        let mut queries: Vec<Vec<Q>> = (0..threads).map(|_| (0..per).map(|_| random_query(&mut rng, syms)).collect()).collect();
+        if !use_real && !use_deep {
+            // the conjunct a-b reflected from markers and from the same tag names with a plain value, in either order
+            let mut m = Dict::new();
+            m.insert("a".into(), Value::Marker);
+            m.insert("b".into(), Value::Marker);
+            let mut p = Dict::new();
+            p.insert("a".into(), Value::make_str("x"));
+            p.insert("b".into(), Value::Marker);
+            let pair = if r % 2 == 0 { vec![Q::Reflect(m), Q::Reflect(p)] } else { vec![Q::Reflect(p), Q::Reflect(m)] };
+            queries[0].extend(pair);
+        }
         round(out, grid, queries, if use_real { "real" } else if use_deep { "deep" } else { "small" });
     }
     Ok(())
